@@ -1066,6 +1066,7 @@ func (t *tScreen) draw() {
 
 	for y := 0; y < t.h; y++ {
 		for x := 0; x < t.w; x++ {
+			verifSched("draw.cell")
 			width := t.drawCell(x, y)
 			if width > 1 {
 				if x+1 < t.w {
@@ -1207,6 +1208,7 @@ func (t *tScreen) resize() {
 	t.h = ws.Height
 	t.w = ws.Width
 	ev := &EventResize{t: time.Now(), ws: ws}
+	verifSched("resize.send")
 	select {
 	case t.eventQ <- ev:
 	default:
@@ -1708,6 +1710,7 @@ func (t *tScreen) scanInput(buf *bytes.Buffer, expire bool) {
 	evs := t.collectEventsFromInput(buf, expire)
 
 	for _, ev := range evs {
+		verifSched("scan.send")
 		select {
 		case t.eventQ <- ev:
 		case <-t.quit:
@@ -1821,6 +1824,7 @@ func (t *tScreen) mainLoop(stopQ chan struct{}) {
 		case <-t.quit:
 			return
 		case <-t.resizeQ:
+			verifSched("main.resize")
 			t.Lock()
 			t.cx = -1
 			t.cy = -1
@@ -1830,6 +1834,7 @@ func (t *tScreen) mainLoop(stopQ chan struct{}) {
 			t.Unlock()
 			continue
 		case <-t.keytimer.C:
+			verifSched("main.timer")
 			// If the timer fired, and the current time
 			// is after the expiration of the escape sequence,
 			// then we assume the escape sequence reached its
@@ -1850,6 +1855,7 @@ func (t *tScreen) mainLoop(stopQ chan struct{}) {
 				t.keytimer.Reset(time.Millisecond * 50)
 			}
 		case chunk := <-t.keychan:
+			verifSched("main.chunk")
 			buf.Write(chunk)
 			t.keyexpire = time.Now().Add(time.Millisecond * 50)
 			t.scanInput(buf, false)
@@ -1876,10 +1882,12 @@ func (t *tScreen) inputLoop(stopQ chan struct{}) {
 		default:
 		}
 		chunk := make([]byte, 128)
+		verifSched("input.read")
 		n, e := t.tty.Read(chunk)
 		switch e {
 		case nil:
 		default:
+			verifSched("input.err")
 			t.Lock()
 			running := t.running
 			t.Unlock()
@@ -1892,6 +1900,7 @@ func (t *tScreen) inputLoop(stopQ chan struct{}) {
 			return
 		}
 		if n > 0 {
+			verifSched("input.send")
 			t.keychan <- chunk[:n]
 		}
 	}
@@ -2061,12 +2070,16 @@ func (t *tScreen) disengage() {
 	t.running = false
 	stopQ := t.stopQ
 	close(stopQ)
+	verifSched("disengage.closed")
 	_ = t.tty.Drain()
+	verifSched("disengage.drained")
 	t.Unlock()
+	verifSched("disengage.unlocked")
 
 	t.tty.NotifyResize(nil)
 	// wait for everything to shut down
 	t.wg.Wait()
+	verifSched("disengage.joined")
 
 	// shutdown the screen and disable special modes (e.g. mouse and bracketed paste)
 	ti := t.ti
@@ -2093,6 +2106,7 @@ func (t *tScreen) disengage() {
 	t.enablePasting(false)
 	t.disableFocusReporting()
 
+	verifSched("disengage.stop")
 	_ = t.tty.Stop()
 }
 
